@@ -59,6 +59,7 @@ type Contract struct {
 	Key        string // canonical function key (types.Func.FullName, or pkg.Func$k for literals)
 	File       string
 	Trusted    bool // contract is assumed, body not verified (external or out of subset)
+	NoErrProp  bool // `noerrprop`: the generated error-propagation family is not wanted for this function (CLI glue with dozens of fallible calls)
 	Pure       bool
 	BV         bool
 	Requires   []Clause
@@ -353,6 +354,8 @@ func parseContractText(lines []string, file string, pkgPath string, voc *Vocab) 
 		switch word {
 		case "bitvector":
 			cur.BitVector = true
+		case "noerrprop":
+			cur.NoErrProp = true
 		case "trusted":
 			cur.Trusted = true
 			if rest != "" {
